@@ -636,7 +636,7 @@ func c15eval(cas c15case) *Violation {
 	}
 	if cas.Via == "Handle" && cas.Format != "color" {
 		// the record's own instant (LstdFlags: local = the instant's own zone)
-		want := tsZone.Format(slog.VerifDefaultLayout())
+		want := tsZone.Format(refDefaultLayout())
 		if r.time != want {
 			return mk("record-time", fmt.Sprintf("record time %q, the record's own instant is %q", r.time, want))
 		}
